@@ -20,9 +20,9 @@ func (*C19) Rule() string {
 }
 
 func (*C19) Plan(tier string) orch.Plan {
-	n := 6000
+	n := 40000
 	if tier == "thorough" {
-		n = 600000
+		n = 3000000
 	}
 	return orch.Plan{Episodes: n, Batch: 250,
 		RealStub: map[string][]string{
